@@ -13,6 +13,7 @@ def main():
     vr = Verifier(repo, '/verif')
     mod = importlib.import_module(modname)
     vr.register(mod.CONTRACTS)
+    vr.register(getattr(mod, 'ASSUMED', []))
     for m in getattr(mod, 'USES', []):
         vr.register(importlib.import_module(m).CONTRACTS)
     t0 = time.time()
